@@ -27,7 +27,16 @@ MANIFEST = dict(
          "call (Spec(x).glom(t, scope=scope), glom(t, x, scope=scope)) and rebinds CHILD_ERRORS to a fresh "
          "list and drops NO_PYFRAME leaves every existing scope map and failed-branch list untouched, for "
          "any heap, any inner spec (children, Coalesce, tuple chains, further re-entries) -- and the "
-         "counter-examples by decide when it does not (the caller's trace grows a branch; IndexError). Per-run "
+         "counter-examples by decide when it does not (the caller's trace grows a branch; IndexError); "
+         "(c20_argval_fresh, c20_arg_noninterference, c20_arg_as_alone) ONE spec object with a container literal in "
+         "ARGUMENT position (S(acc=[]), Coalesce(default=[]), T.get(k, {}), Call args, Assign value, Or / Optional / "
+         "Check / Switch defaults) used by several calls: _ArgValuator.mode modelled on an object heap (the literal "
+         "nested, shared, containing itself; cache test, allocation and cache store before the items, in-place "
+         "extend): for any heap, argument, fuel the value shares no container with the spec and every object of the "
+         "spec is untouched; any number of calls that take the value of a flat literal, push into it and read it, "
+         "under ANY schedule of single operations (threads, a call inside another, one after the other) read exactly "
+         "what the by-value reference reads in which no other call occurs, i.e. what they read alone; counter-example "
+         "by decide for the variant that hands an empty literal out as it is. Per-run "
          "facts obligation by `decide` (cache access shapes and _MAX_CACHE, the only writes to module/class "
          "state in any function of glom, the fresh dict literals of glom()/_glom, registry methods on the "
          "evaluation path write only _type_cache; Spec.glom and glom() reset, AFTER merging the scope they are "
@@ -37,7 +46,10 @@ MANIFEST = dict(
          "threads under a 1e-6 switch interval, glom-inside-callable nestings to depth 3, and randomised "
          "re-entries with access to the running scope whose full rendered error trace is compared with the "
          "same call where the inner call is made in isolation (and, where the model can express the call, "
-         "with the trace skeleton the Lean model of the bookkeeping renders).",
+         "with the trace skeleton the Lean model of the bookkeeping renders); and randomised shared-argument cases "
+         "(literal heaps x 12 argument positions x push/yield programs x interleavings, re-entry, sequential reuse, "
+         "free-running) whose reads and whose literal afterwards are compared with the calls alone AND with the Lean "
+         "heap model run under the same schedule.",
     note="partial because atomicity of a single dict lookup/store under the GIL and thread-locality of "
          "sys.exc_info() are properties of CPython that are assumed; a theorem cannot exhibit a GIL-level "
          "race, and the enumeration switches threads only at user callables. Registration concurrent with "
@@ -63,7 +75,8 @@ RULE = ('calls are drawn from templates that make leakage visible: dotted string
         'sys.setswitchinterval(1e-6). Each call is first run alone (its shared-state accesses are logged '
         'for the model), caches are emptied, then the calls run under the schedule; outcome = repr of the '
         'value or (exception class, str(exc) with traceback file/line lines removed). non-trivial = at least '
-        'two calls of which one is suspended while another runs and then resumed, or a nesting, or free-running threads; '
+        'two calls of which one is suspended while another runs and then resumed, or a nesting, or free-running threads, '
+        'or (shared argument) two or more calls using the same spec object in any order; '
         'RE-ENTRY WITH THE RUNNING SCOPE (mode reent, randomised and type-directed): a custom spec (glomit) or a '
         'plain callable given S makes an inner glom call handing it no scope / the user variables / dict(scope) / '
         'the running scope, through Spec(x).glom(t, scope=…) or glom(t, x, scope=…); the inner call returns, fails '
@@ -73,13 +86,33 @@ RULE = ('calls are drawn from templates that make leakage visible: dotted string
         'and Spec wrappers that succeed or fail. Observed: the outer outcome with the FULL rendered message and '
         'trace (addresses masked, traceback source lines removed); expected: the same outer call in which every '
         'inner call is replaced by the outcome it has in isolation (made the same way from a top-level / trivial '
-        'call with the same user variables and position); inner outcomes nested vs isolated are compared too; distinct = '
+        'call with the same user variables and position); inner outcomes nested vs isolated are compared too; '
+        'SHARED ARGUMENT (mode shared, spec kind accum; randomised and type-directed): ONE spec object with a container '
+        'literal in argument position -- the literal is a random object heap (root list / dict / set / tuple; each '
+        'container empty (45%) or 1-3 items: constants, T leaves, nested containers to depth 2, a second reference to an '
+        'existing list / dict / set, a reference to an enclosing list / dict), the position is one of S(acc=LIT), '
+        'S(acc=Coalesce(default=LIT)), Coalesce(default=LIT), T.get(k, LIT), Call(f, args=(LIT,)), Call(f, kwargs={x: LIT}), '
+        'S.k(LIT), Assign(p, LIT), Or(default=LIT), Optional(k, default=LIT), Check(default=LIT), Switch(default=LIT) -- '
+        'whose value each call keeps in its scope, MUTATES (1-3 pushes of its own id / name into mutable containers of the '
+        'value, by a T method on the scope value or a catalogue callable) and finally READS (token sequence of the value, '
+        'sets sorted), with 1-2 yield points in between; used by 2-3 calls (distinct targets, or the same target twice) under '
+        'the strictly alternating schedule, one call after the other, sampled interleavings, a re-entrant call with the '
+        'same spec object from a yield point, free-running threads. "Alone" = the call as the only call, on a spec object '
+        'of its own built the same way. Observed: what each call read, the literal inside the shared spec before and '
+        'after (and repr of every shared spec before / after); expected: the reads alone, the literal unchanged; the Lean '
+        'heap model of _ArgValuator.mode run under the same schedule must read the same, and for flat literals the '
+        'by-value reference too; distinct = '
         'distinct (calls, schedule)')
 TRUSTED = ["CPython: a single dict lookup / store is atomic under the GIL; sys.exc_info() and the Python call "
            "stack are per thread (assumed)",
            "the harness scheduler (threading.Semaphore handshakes; one runnable call at a time between yield points)"]
 ASSUMPTIONS = ['no registration (glom.register / register_op) runs concurrently with glom calls',
                'PATH_STAR = True', 'user callables inside the specs do not share mutable state between calls',
+               'what is in argument position and is not a list / dict / set / tuple / frozenset (a constant object, a Val) is '
+               'handed out as it is, by design: only the five container types are rebuilt per call',
+               'shared-argument model: taking the value of an argument is ONE step of a call (arg_val touches only its own '
+               '_ArgValuator and the containers it is building; yield points INSIDE an argument being filled are the '
+               'sh_args / sh_kw / sh_sset templates); set items are leaves, observed sorted',
                'interleavings are enumerated at the granularity of user-callable invocations',
                'a scope handed explicitly to a re-entrant call is DATA: it carries the caller\'s MODE / MIN_MODE and '
                'position (scope[Path], the "(at path …)" of messages) besides the user variables. Re-entry points are '
@@ -1516,9 +1549,12 @@ class AccGen:
     def __init__(self, rng):
         self.rng = rng
 
-    def literal(self):
+    def literal(self, empty_root=None):
+        """`empty_root`: a kind -- the literal is the empty container of that kind"""
         r = self.rng
         heap = []
+        if empty_root is not None:
+            return [[empty_root, []]], 0
 
         def leaf(allow_t=True):
             return ['leaf', r.choice(self.TLEAVES if allow_t and r.random() < 0.35 else self.CONSTS)]
@@ -1583,9 +1619,9 @@ class AccGen:
         walk(root, [], [])
         return out
 
-    def case(self, pos=None):
+    def case(self, pos=None, empty_root=None):
         r = self.rng
-        heap, root = self.literal()
+        heap, root = self.literal(empty_root)
         muts = self.mutables(heap, root)
         steps = []
         for _ in range(r.randint(1, 3)):
@@ -1613,7 +1649,9 @@ def gen_accum(rng, tier):
     g = AccGen(rng)
     poss = list(ARG_POS)
     for rep in range(72 if quick else 1200):
-        name, spec, ny = g.case(pos=poss[rep % len(poss)])
+        # every position meets the empty list, the empty dict and the empty set; then random literals
+        rnd = rep // len(poss)
+        name, spec, ny = g.case(pos=poss[rep % len(poss)], empty_root=['list', 'dict', 'set'][rnd] if rnd < 3 else None)
         targets = [TA, TB] if rng.random() < 0.8 else [TA, TA]
         alt = [i % 2 for i in range(2 * (ny + 1))]
         scheds = [alt, sorted(alt)]
@@ -1931,6 +1969,8 @@ def nontrivial(case, verdict):
     if case['mode'] in ('nested', 'free', 'reent'):
         return True
     if case['mode'] == 'shared':
+        if case['spec'][0] == 'accum' and len(case['targets']) >= 2:
+            return True             # also one call after the other: the later call uses the spec object the earlier one used
         return 'nest_at' in case or case.get('schedule') is None or interleaved(case['schedule'])
     if len(case['calls']) >= 2 and interleaved(case.get('schedule')):
         return True
@@ -1994,6 +2034,7 @@ def shrink(case):
                 yield dict(base, calls=[dict(call, spec=sp)])
         return
     if case['mode'] == 'shared':
+        base.pop('argsys', None)
         n = len(case['targets'])
         if n > 2 and case.get('schedule') is not None:
             for i in range(n):
@@ -2001,6 +2042,29 @@ def shrink(case):
                 c['targets'] = case['targets'][:i] + case['targets'][i + 1:]
                 c['schedule'] = [t - (1 if t > i else 0) for t in case['schedule'] if t != i]
                 yield c
+        if n > 2 and case.get('schedule') is None and 'nest_at' not in case:
+            yield dict(base, targets=case['targets'][:2])
+        if case['spec'][0] == 'accum':
+            d = case['spec'][1]
+            if case.get('schedule') is not None and case['schedule'] != sorted(case['schedule']):
+                yield dict(base, schedule=sorted(case['schedule']))          # one call after the other
+            if case.get('schedule') is None and 'nest_at' not in case:       # free-running -> one after the other
+                ny = sum(1 for st in d['steps'] if st[0] == 'y')
+                yield dict(base, schedule=sorted(list(range(n)) * (ny + 1)))
+            if d['pos'] != 'sset':
+                yield dict(base, spec=['accum', dict(d, pos='sset')], names=['acc_sset'])
+            kind = d['heap'][d['root']][0]
+            if len(d['heap']) > 1 and kind in ('list', 'dict', 'set'):       # the literal: its root alone, empty
+                steps = [st if st[0] == 'y' else ['push', [], [], st[3], st[4], kind] for st in d['steps']]
+                yield dict(base, spec=['accum', dict(d, heap=[[kind, []]], root=0, steps=steps)])
+            pushes = [i for i, st in enumerate(d['steps']) if st[0] == 'push']
+            if len(pushes) > 1:
+                for i in pushes:
+                    yield dict(base, spec=['accum', dict(d, steps=d['steps'][:i] + d['steps'][i + 1:])])
+            for i, st in enumerate(d['steps']):
+                if st[0] == 'push' and (st[3] != 'id' or st[4] != 'tmethod'):
+                    yield dict(base, spec=['accum', dict(d, steps=d['steps'][:i] + [st[:3] + ['id', 'tmethod', st[5]]]
+                                                          + d['steps'][i + 1:])])
         return
     n = len(case['calls'])
     if n > 1:
